@@ -87,6 +87,8 @@ def gen_value(reg: Any, typ: Any, rnd: random.Random) -> Any:
         return rnd.choice(list(typ.values))
     if isinstance(typ, api.ListOf):
         return [gen_value(reg, typ.elem, rnd) for _ in range(typ.n)]
+    if isinstance(typ, api.DictOf):
+        return {k: gen_value(reg, t, rnd) for k, t in typ.fields.items()}
     if isinstance(typ, api.Seq):
         n = rnd.choice([typ.lo, typ.lo + 1, typ.lo + 2, typ.lo + 5]) if typ.hi is None else rnd.randint(typ.lo, min(typ.hi, typ.lo + 8))
         return [gen_value(reg, typ.elem, rnd) for _ in range(n)]
